@@ -307,13 +307,18 @@ func (env *c05Env) register(r rRoute) {
 func (env *c05Env) borrowContext(id int) {
 	defer func() { recover() }()
 	c := env.e.AcquireContext()
-	req := httptest.NewRequest("GET", "/borrowed?q=borrowed", nil)
+	target := "/borrowed?q=borrowed"
+	if id%2 == 0 {
+		target = "/borrowed" // no query string at all
+	}
+	req := httptest.NewRequest("GET", target, nil)
 	c.Reset(req, httptest.NewRecorder())
 	c.SetPath("/borrowed/:b1/:b2")
 	c.SetParamNames("b1", "b2", "b3", "b4", "b5", "b6")
 	c.SetParamValues("bv1", "bv2", "bv3", "bv4", "bv5", "bv6")
 	c.Set("k"+strconv.Itoa(id%4), "borrowed")
 	c.QueryParam("q")
+	c.QueryParams()["leak"] = []string{"1"}
 	c.SetLogger(&c05Logger{Logger: log.New("x"), id: 77, owner: -1, env: env})
 	c.Response().Before(func() {})
 	c.Response().WriteHeader(http.StatusTeapot)
@@ -358,6 +363,9 @@ func (env *c05Env) serve3(id int, q rReq, prog []c05HOp, probe bool) (ro c05Obs,
 			// some requests carry byte-identical query strings (what a handler did to the parsed query of
 			// one of them must not show in another)
 			req.URL.RawQuery = "q=same"
+		}
+		if id%5 == 0 {
+			req.URL.RawQuery = "" // ... and some carry none at all
 		}
 		req = req.WithContext(contextWith(req, st))
 		rec := httptest.NewRecorder()
@@ -469,7 +477,7 @@ func c05Run(ci any) Result {
 					return l
 				}
 				bops := []string{wJoin("3", wStr("/borrowed/:b1/:b2")), wJoin("1", wStrs(six("b"))), wJoin("2", wStrs(six("bv"))),
-					wJoin("0", wInt(reqID%4), "99"), "5", "4 77", "8 0", "6 418", "7 8"}
+					wJoin("0", wInt(reqID%4), "99"), "5", "13 9997", "4 77", "8 0", "6 418", "7 8"}
 				ops = append(ops, "2", "7777", wInt(len(bops))+" "+strings.Join(bops, " "))
 				nsteps++
 			}
